@@ -71,6 +71,26 @@ def mask_def(k, c):
     return "Definition k%d : Z := bdiff3 (@mask1_tab VLab %s %s %d%%nat) %s." % (k, nested(c["sigma"][0], 2, z), m, c["i"], bools(3))
 
 
+def tmask_def(k, c):
+    leaf = lambda q: "(QNode %s [])" % nested(q, 2, z)
+    qtot = nested(c["qtot"], 1, z)
+    bools = nested(c["mask"], 1, lambda b: "true" if b else "false")
+    if c["two"]:
+        return ("Definition m%d : Z := bdiff1 (@tmask2_flat VLab %s %s [%s] %s %s [%s]) %s." %
+                (k, qtot, nested(c["sgn"], 3, z), "; ".join(leaf(q) for q in c["gsn"]), nested(c["sgp"], 3, z), nested(c["qp"], 2, z),
+                 "; ".join(leaf(q) for q in c["gso"]), bools))
+    return ("Definition m%d : Z := bdiff1 (@tmask1_flat VLab %s %s %s [%s]) %s." %
+            (k, qtot, nested(c["sgn"], 3, z), nested(c["qn"], 2, z), "; ".join(leaf(q) for q in c["gsn"]), bools))
+
+
+def tmask_file(cases):
+    body = [HEADER.replace("Model.Qn.", "Model.Qn Model.QnMask Model.Ttns Model.TtnsQn.")]
+    for k, c in enumerate(cases):
+        body.append(tmask_def(k, c))
+    body.append("Eval vm_compute in [%s]." % "; ".join("m%d" % k for k in range(len(cases))))
+    return "\n".join(body) + "\n"
+
+
 def mask_file(cases):
     body = [HEADER.replace("Model.Qn.", "Model.Qn Model.QnMask.")]
     for k, c in enumerate(cases):
@@ -94,7 +114,7 @@ def run(ctx):
                     "dense oracle in harness/impl/c06_num.py (search only)",
                     "tree exports by harness/impl/c06_tree.py (supports as index tuples, node labels) and mask exports by c06_mask.py",
                     "PARTIAL: tree gauge moves / compress / 2-site updates have no label theorem (their outputs are decided by the proved-sound tree checker)"]
-    ok_build, log = ctx.coq_make(["Proofs/QnProofs.vo", "Proofs/QnMaskProofs.vo", "Proofs/TtnsQnProofs.vo"])
+    ok_build, log = ctx.coq_make(["Proofs/QnProofs.vo", "Proofs/QnMaskProofs.vo", "Proofs/TtnsQnProofs.vo", "Proofs/TtnsQnMoves.vo"])
     ok_props = False
     if ok_build:
         ok_props, log = ctx.props("Props/C06.v")
@@ -154,6 +174,15 @@ def run(ctx):
             continue
         mcases += r["cases"]
 
+    tmres = ctx.impl_par("c06_tmask.py", [{"seed": ctx.rng.randrange(10 ** 6), "ncases": 50 if quick else 500, "out": "%s/tmask_%d.json" % (tmp, i)} for i in range(3)], timeout=600)
+    tmcases = []
+    for (rc, r, out) in tmres:
+        r = C3.load_result(r)
+        if r is None or r.get("errors"):
+            crashed.append(out[-500:] if r is None else r["errors"][:2])
+            continue
+        tmcases += r["cases"]
+
     # integer stream of the exact operations (labels only matter here)
     isteps = []
     ires = ctx.impl_par("c03_int.py", [{"seed": ctx.rng.randrange(10 ** 6), "ncases": 12 if quick else 60, "out": "%s/int_%d.json" % (tmp, i)} for i in range(4)], timeout=600)
@@ -168,7 +197,7 @@ def run(ctx):
     except OSError:
         pass
 
-    bad_exports, corr_err, label_mism, bad_trees, bad_masks = [], [], [], [], []
+    bad_exports, corr_err, label_mism, bad_trees, bad_masks, bad_tmasks = [], [], [], [], [], []
     n_eval = 0
     if ok_build:
         files = []
@@ -184,6 +213,8 @@ def run(ctx):
         perm = 40
         for i in range(0, len(mcases), perm):
             files.append(("msk_%03d" % (i // perm), mask_file(mcases[i:i + perm])))
+        for i in range(0, len(tmcases), perm):
+            files.append(("tmk_%03d" % (i // perm), tmask_file(tmcases[i:i + perm])))
         outs = ctx.coq_eval_many(files, timeout=900, par=14) if files else {}
         for name, _ in files:
             rc, out = outs[name]
@@ -198,6 +229,15 @@ def run(ctx):
                     n_eval += 1
                     if v:
                         bad_trees.append(e)
+            elif name.startswith("tmk_"):
+                chunk = tmcases[idx * perm:(idx + 1) * perm]
+                if vals is None or len(vals) != len(chunk):
+                    corr_err.append({"file": name, "rc": rc, "out": out[-500:]})
+                    continue
+                for c, v in zip(chunk, vals):
+                    n_eval += 1
+                    if v:
+                        bad_tmasks.append((c, v))
             elif name.startswith("msk_"):
                 chunk = mcases[idx * perm:(idx + 1) * perm]
                 if vals is None or len(vals) != len(chunk):
@@ -259,6 +299,11 @@ def run(ctx):
         ctx.violation("corr:mask%d" % (2 if c["two"] else 1), "correspondence Model/QnMask.v (mask%d_tab) vs get_qn_mask(_get_big_qn(...)); C06_mask_update_valid no longer describes the code's mask" % (2 if c["two"] else 1),
                       {"differing_entries": v, "cases": len(bad_masks), "qn": c["qn"], "qnidx": c["qnidx"], "qntot": c["qntot"], "to_right": c["to_right"], "site": c["i"], "impl_mask": c["mask"]},
                       found=False)
+    if bad_tmasks:
+        c, v = bad_tmasks[0]
+        ctx.violation("corr:tree-mask%d" % (2 if c["two"] else 1), "correspondence Model/TtnsQn.v (tmask%d_flat) vs TTNS.get_qnmask(node, include_parent=%s); C06_ttns_mask_update_valid no longer describes the code's mask" % (2 if c["two"] else 1, c["two"]),
+                      {"differing_entries": v, "cases": len(bad_tmasks), "qtot": c["qtot"], "node_labels": c["qn"], "children_labels": c["gsn"], "mask_shape": c["shape"], "impl_mask": c["mask"][:200]},
+                      found=False)
     by_op = {}
     for st in label_mism:
         by_op.setdefault(st["op"], []).append(st)
@@ -281,6 +326,7 @@ def run(ctx):
     nontriv = sum(1 for e in exports if max(e["bond_dims"]) > 1 and e["what"] != "constructor")
     nontriv += sum(1 for e in texports if e["maxbond"] > 1 and e["what"] != "constructor")
     nontriv += sum(1 for c in mcases if 0 < c["true_entries"] < c["entries"])
+    nontriv += sum(1 for c in tmcases if 0 < c["true_entries"] < c["entries"])
     samples = [{"op": e["what"], "ncomp": e["ncomp"], "qntot": e["qntot"], "qnidx": e["qnidx"], "bond_dims": e["bond_dims"], "sigma": e["sigma"]} for e in exports[1:4]]
     return {"evaluations": n_eval, "distinct_nontrivial": nontriv,
             "rule": "one evaluation = one chain or tree result (of a constructor or numerical operation, or a changed operand) whose exported support and labels were decided by the Coq checker, "
@@ -294,4 +340,5 @@ def run(ctx):
                                    "tree_results_checked": len(texports), "tree_checker_rejections": len(bad_trees), "tree_by_operation": tstats["ops"],
                                    "tree_cases": tstats["cases"], "tree_oracle_checks_incl_live_objects": tstats["checks"], "tree_sector_mode": tstats["sector_mode"],
                                    "tree_label_components": tstats["ncomp"], "tree_exceptions": tstats["exceptions"], "tree_random_rejected": tstats["random_rejected"],
+                                   "tree_masks_compared": len(tmcases), "tree_masks_two_site": sum(1 for c in tmcases if c["two"]), "tree_mask_mismatches": len(bad_tmasks),
                                    "masks_compared": len(mcases), "masks_two_site": sum(1 for c in mcases if c["two"]), "mask_mismatches": len(bad_masks)}}
